@@ -599,29 +599,38 @@ async def factory_error_fails_the_component():
     KeyError as cause -- it does not start to wait for a publication"""
     from asphalt.core import Component, ComponentStartError, add_resource_factory, get_resource, start_component
 
+    from asphalt.core import ResourceNotFound, get_resource_nowait
+
     class Needs(Component):
         async def start(self):
             await get_resource(A)
+    outs = []
+    for err in ("KeyError", "ResourceNotFound"):
+        class Root(Component):
+            def __init__(self):
+                self.add_component("needs", Needs)
 
-    class Root(Component):
-        def __init__(self):
-            self.add_component("needs", Needs)
-
-        async def prepare(self):
-            def broken() -> A:
-                raise KeyError("missing setting")
-            add_resource_factory(broken)
-    out = None
-    async with Context():
-        try:
-            with anyio.fail_after(5):
-                await start_component(Root, {}, timeout=1)
-            out = "returned"
-        except ComponentStartError as e:
-            out = ("ComponentStartError", e.phase, e.path, type(e.__cause__).__name__)
-        except BaseException as e:  # noqa
-            out = (type(e).__name__,)
-    return out == ("ComponentStartError", "starting", "needs", "KeyError"), f"{out}"
+            async def prepare(self):
+                def broken() -> A:
+                    if err == "KeyError":
+                        raise KeyError("missing setting")
+                    get_resource_nowait(B)       # the factory's OWN dependency is missing: ResourceNotFound for B
+                    return A(0)
+                add_resource_factory(broken)
+        out = None
+        async with Context():
+            try:
+                with anyio.fail_after(5):
+                    await start_component(Root, {}, timeout=1)
+                out = "returned"
+            except ComponentStartError as e:
+                out = ("ComponentStartError", e.phase, e.path, type(e.__cause__).__name__)
+            except BaseException as e:  # noqa
+                out = (type(e).__name__,)
+        outs.append(out)
+    ok = outs == [("ComponentStartError", "starting", "needs", "KeyError"),
+                  ("ComponentStartError", "starting", "needs", "ResourceNotFound")]
+    return ok, f"{outs}"
 
 
 async def timeout_is_a_timeouterror_wherever_the_component_hangs():
